@@ -1899,6 +1899,18 @@ impl SctpInner {
             let _num_duplicate_tsns = buf.get_u16();
             let old_rwnd = self.peer_rwnd.swap(a_rwnd, Ordering::SeqCst);
 
+            // RFC 3758 §3.5 (C4): while the peer's cumulative ack is still behind our
+            // Advanced.Peer.Ack.Point the FORWARD-TSN was lost or has not arrived
+            // yet - send it again; once confirmed, forget the stream/SSN pairs.
+            if self.has_pr_sctp.load(Ordering::Relaxed) {
+                let advanced = self.advanced_peer_ack_tsn.load(Ordering::SeqCst);
+                if tsn_gt(advanced, cumulative_tsn_ack) {
+                    self.forward_tsn_pending.store(true, Ordering::SeqCst);
+                } else {
+                    self.forward_tsn_streams.lock().clear();
+                }
+            }
+
             // Log peer_rwnd to understand flow control
             if a_rwnd < 100000 {
                 trace!(
@@ -3667,8 +3679,19 @@ impl SctpInner {
                 }
             }
             {
+                // Merge with pairs of earlier advances the peer has not confirmed yet:
+                // a re-sent FORWARD-TSN must still carry them.
                 let mut fwd = self.forward_tsn_streams.lock();
-                *fwd = stream_ssn.into_iter().collect();
+                for (sid, ssn) in stream_ssn {
+                    match fwd.iter_mut().find(|(s, _)| *s == sid) {
+                        Some(entry) => {
+                            if ssn_gt(ssn, entry.1) {
+                                entry.1 = ssn;
+                            }
+                        }
+                        None => fwd.push((sid, ssn)),
+                    }
+                }
             }
             for t in remove {
                 sent_queue.remove(&t);
@@ -3683,10 +3706,9 @@ impl SctpInner {
     fn create_forward_tsn_chunk(&self) -> Option<Bytes> {
         let advanced = self.advanced_peer_ack_tsn.load(Ordering::SeqCst);
 
-        let stream_ssn_pairs: Vec<(u16, u16)> = {
-            let mut fwd = self.forward_tsn_streams.lock();
-            std::mem::take(&mut *fwd)
-        };
+        // Kept until a SACK confirms the advance (see handle_sack) so that a lost
+        // FORWARD-TSN can be sent again.
+        let stream_ssn_pairs: Vec<(u16, u16)> = self.forward_tsn_streams.lock().clone();
 
         let pair_bytes = stream_ssn_pairs.len() * 4;
         let mut body = BytesMut::with_capacity(4 + pair_bytes);
